@@ -20,6 +20,14 @@ REPO = os.environ.get("QVERIF_REPO", "/repo")
 def _mk_module(name, attrs):
     m = types.ModuleType(name)
     m.__dict__.update(attrs)
+
+    def _missing(attr, _name=name):
+        # a library function the symbolic model does not provide is a limit of the MODEL (undecided),
+        # never an AttributeError of the program under verification
+        if attr.startswith("__"):
+            raise AttributeError(attr)
+        raise Unsupported(f"{_name}.{attr} is not modelled")
+    m.__dict__["__getattr__"] = _missing
     return m
 
 
